@@ -34,17 +34,26 @@ func (w *ResponseCapture) WriteHeader(code int) {
 	w.ResponseWriter.WriteHeader(code)
 }
 
-// Write computes the written len and stores it in ContentLength.
+// Write computes the written len and stores it in ContentLength. As with
+// net/http, writing before WriteHeader was called sends a 200 status which is
+// recorded in StatusCode.
 func (w *ResponseCapture) Write(b []byte) (int, error) {
+	if w.StatusCode == 0 {
+		w.StatusCode = http.StatusOK
+	}
 	n, err := w.ResponseWriter.Write(b)
 	w.ContentLength += n
 	return n, err
 }
 
 // Flush implements the http.Flusher interface if the underlying response
-// writer supports it.
+// writer supports it. Flushing before WriteHeader was called sends a 200 status
+// which is recorded in StatusCode.
 func (w *ResponseCapture) Flush() {
 	if f, ok := w.ResponseWriter.(http.Flusher); ok {
+		if w.StatusCode == 0 {
+			w.StatusCode = http.StatusOK
+		}
 		f.Flush()
 	}
 }
